@@ -14,12 +14,12 @@ CHECKS = {
         "the checked one; cursor + remaining count is invariant in the find loops; traits compare/find over the own buffer end at or before size(); forwarding overloads call their own worker with every parameter; the storage classes instantiated for wchar_t/char16_t/char32_t/char access the buffer only through its own element type (no reinterpretation as another non-character type).",
    note="Search results, shifted characters, copy/substr counts and stream extraction are not decided; trusts sa/ceval.py, sa/flow.py and the default-argument table transcribed from [basic.string]."),
  "C02": dict(level="other", design="4.2",
-   technique="checks-before-effects path rule with a may-throw summary over the member call graph, guard-dominance (same-object) rule for position offsets and size subtractions by linear entailment, published-equals-checked rule, derived-length-after-publication typestate, exception-type/threshold tables",
+   technique="checks-before-effects path rule with a may-throw summary over the member call graph, guard-dominance (same-object) rule for position offsets and size subtractions by linear entailment, published-equals-checked rule, derived-length-after-publication typestate, symbolic summaries of the checking functions (paths through helpers to return/throw, contract by entailment), write/read extents by linear entailment with loops decided by an exact two-iteration pass plus an induction pass over inferred invariants",
    text="Structural necessary conditions on every instantiated member with the throwing policy (packed and strlen layouts; thorough adds size-field and wchar_t), all paths: no capacity check, position "
         "check or call to a member that may throw is evaluated after the first length publication or character write of the body; every position parameter offset into X or subtracted from X.size() is "
         "dominated by check_index[_strict] against the same X or a branch entailing pos <= X.size(); every published length is exactly a policy-check result, a same-capacity size or 0, adjust_size only "
-        "shrinks; no offset is computed from a re-derived length after a growing publication; every character write's destination range is proven inside [0,N] by linear arithmetic from the checks on its path; check_size throws length_error exactly for size > N, check_index out_of_range exactly for pos >= size, "
-        "check_index_strict = check_index(pos, size+1), at() checks first; the storage array has N+1 elements; reads of the own buffer in the search/compare family end at or before size(). Read extents, source/destination aliasing and the silent policy are NOT decided.",
+        "shrinks; no offset is computed from a re-derived length after a growing publication; every character write's destination range is proven inside [0,N] by linear arithmetic from the checks on its path, for every iteration of a loop by induction (candidate invariants assumed at the head and re-established at the back edge) and for the first two iterations exactly; check_size throws length_error exactly for size > N, check_add for size1+size2 > N, check_index out_of_range exactly for pos >= size, "
+        "check_index_strict exactly for pos > size, at() returns exactly for pos < size() - each decided on a symbolic summary of the function through its helpers; the storage array has N+1 elements; reads of the own buffer in the search/compare family end at or before size(). Read extents, source/destination aliasing and the silent policy are NOT decided.",
    note="Trusts the event tables in sa/fstring.py (which calls write characters, which publish a length) and sa/linear.py; iterator parameters are assumed to point into *this."),
  "C05": dict(level="other", design="4.5",
    technique="abstract-variant typestate interpretation of the lifetime machinery over the template patterns (calls followed, visit_alt/visit_alt_at applied to their lambdas, exceptional successors at every element operation, try/catch rollback), relational truth tables against [variant.relops], guard-dominance rules for get/get_if/visit/hash, case-label/alternative agreement of the instantiated dispatch switches",
